@@ -160,6 +160,7 @@ Regimes(L, b, Fs, fsz) ==
         \cup (IF L.mt = MT_SURR THEN {"bw-" \o ToString(ForcedBandwidth(L, b, Fs, fsz))} ELSE {}))
   \cup (IF b = OPUS_AUTO THEN {"auto"} ELSE IF b = OPUS_BITRATE_MAX THEN {"max"} ELSE {"explicit"})
   \cup (IF L.nch > L.S + L.C THEN {"extra-inputs"} ELSE {})
+  \cup (IF b \in {Clip(L, t + d - 1) : t \in Thresholds(L, Fs, fsz), d \in 0..2} THEN {"edge"} ELSE {})
 
 Emit ==
   (Gen /\ st.m = "pt" /\ (st.Fs = 48000 \/ st.q \in PlanQOther) /\ st.b \in PlanGrid(PtL, st.Fs, PtFsz)) =>
